@@ -226,6 +226,19 @@ def rank_verdict(count, n, rf):
 def monitor_moasha(spec, t):
     out = []
     rf, max_t = t["rf"], t["max_t"]
+    # the rung levels of bracket s are grace_period * rf^(k+s) for k = 0 .. floor(log(max_t / grace_period) / log(rf) - s + 1) - 1
+    # (the documented rule, evaluated here in floating point as the constructor does; compared up to round-off)
+    import math as _m
+    g_, rf_f = spec["grace_period"], float(rf)
+    for s_, ms in enumerate(t["milestones"]):
+        n_r = int(_m.log(max_t / g_) / _m.log(rf_f) - s_ + 1)
+        want = [g_ * rf_f ** (k_ + s_) for k_ in reversed(range(max(n_r, 0)))]
+        got = [float(m_) for m_ in ms]
+        if len(got) != len(want) or any(abs(a_ - b_) > 1e-9 * max(1.0, abs(b_)) for a_, b_ in zip(got, want)):
+            out.append({"signature": "c19:moasha-bracket-rung-levels", "what":
+                        f"bracket {s_} of MOASHA(grace_period={g_}, reduction_factor={rf_f}, max_t={max_t}) has rung levels {got}, "
+                        f"the rule gives {want}", "detail": None})
+            break
     nds = spec["priority"]["kind"] == "nds"
     mxs = spec["priority"].get("max_num_samples") if nds else None
     for ev in t["events"]:
